@@ -187,7 +187,7 @@ class _Run:
         except Exception as e:  # noqa: BLE001
             self.guard(e, "get_focus_widgets")
             return f"exc:{type(e).__name__}"
-        return any(w is leaf for w in ws)
+        return any(w is leaf or getattr(w, "base_widget", w) is leaf for w in ws)
 
     # ------------------------------------------------------------------ building
     def build(self, spec: dict, slot: str) -> Node:  # noqa: C901, PLR0912
@@ -197,7 +197,7 @@ class _Run:
         if k == "leaf":
             flow_cls, box_cls = leaf_classes()
             w = (box_cls if slot == "box" else flow_cls)(self, spec)
-            return Node(spec, "leaf", w, w)
+            return Node(spec, "leaf", self.decorate(w, spec), w)
         if k == "Pile":
             kids = [self.build(s, "flow") for s in spec.get("kids", [])]
             base = urwid.Pile([c.w for c in kids])
@@ -247,7 +247,22 @@ class _Run:
             w = urwid.Filler(base, valign="top")
         elif slot == "flow" and k in BOX_KINDS:
             w = urwid.BoxAdapter(base, spec.get("h", 3))
-        return Node(spec, k, w, base, kids)
+        return Node(spec, k, self.decorate(w, spec), base, kids)
+
+    @staticmethod
+    def decorate(w, spec):
+        """Decoration widgets between a container and its child (spec key "deco"): focus paths, key routing and the
+        focus flag must pass through them unchanged (containers look at base_widget)."""
+        import urwid  # noqa: PLC0415
+
+        for d in spec.get("deco", ()):
+            if d == "attrmap":
+                w = urwid.AttrMap(w, "plain", "focused")
+            elif d == "padding":
+                w = urwid.Padding(w, left=0, right=0)
+            elif d == "placeholder":
+                w = urwid.WidgetPlaceholder(w)
+        return w
 
     # ------------------------------------------------------------------ fresh replica (history independence)
     def clone_widgets(self, n: Node, sink):
@@ -257,7 +272,7 @@ class _Run:
         import urwid  # noqa: PLC0415
 
         if n.kind == "leaf":
-            return type(n.base)(sink, n.spec)
+            return self.decorate(type(n.base)(sink, n.spec), n.spec)
         live = n.base
         kids = []
         for c in n.kids:
@@ -294,12 +309,15 @@ class _Run:
             base = urwid.Overlay(top, bottom, "center", ("relative", n.spec.get("pw", 60)), "middle", ("relative", n.spec.get("ph", 60)))
         else:
             return None
-        if n.w is n.base:
-            return base
-        if isinstance(n.w, urwid.Filler):
-            return urwid.Filler(base, valign="top")
-        if isinstance(n.w, urwid.BoxAdapter):
-            return urwid.BoxAdapter(base, n.w.height)
+        inner = n.w
+        while isinstance(inner, (urwid.AttrMap, urwid.Padding, urwid.WidgetPlaceholder)):
+            inner = inner.original_widget
+        if inner is n.base:
+            return self.decorate(base, n.spec)
+        if isinstance(inner, urwid.Filler):
+            return self.decorate(urwid.Filler(base, valign="top"), n.spec)
+        if isinstance(inner, urwid.BoxAdapter):
+            return self.decorate(urwid.BoxAdapter(base, inner.height), n.spec)
         return None
 
     def listbox_item_height_depends_on_inner_focus(self) -> bool:
@@ -1110,6 +1128,16 @@ class ContainersEngine(Engine):
     def generate(self, rng: random.Random, tier: str) -> dict:  # noqa: C901, PLR0912, PLR0915
         ctr = [0]
         tree = self.gen_node(rng, "box", 3, [10], ctr, must_be_container=True)
+        if rng.random() < 0.4:
+            # decoration widgets between containers and their children (never around the root)
+            def add_deco(spec, is_root=False):
+                if not is_root and rng.random() < 0.3:
+                    spec["deco"] = [rng.choice(["attrmap", "padding", "placeholder"]) for _ in range(rng.choice([1, 1, 2]))]
+                for c in self.spec_children(spec):
+                    if c:
+                        add_deco(c)
+
+            add_deco(tree, True)
         size = [rng.choice(COLS[1:]), rng.choice(ROWS[1:])] if rng.random() < 0.85 else [rng.choice(COLS), rng.choice(ROWS)]
         conts = self.container_paths(tree)
         lists = [c for c in conts if c[1] in LIST_KINDS]
